@@ -42,20 +42,25 @@ def run(ctx, rep):
     led = json.load(open(os.path.join(engine.VERIF, 'sa', 'rules', 'c03_ledger.json')))
     allowed = {tuple(e['key']): e for e in led['sites']}
     # totals per (file, kind, detail): a site that moved into another function of the same file is the same site
+    def site_class(kind, what):
+        # indexing a Vec (call Index::index) and indexing a slice (BoundsCheck assert) are the same kind of site
+        if (kind, what) in (('call', 'index'), ('call', 'index_mut'), ('assert', 'BoundsCheck')):
+            return ('index', '')
+        return (kind, what)
     budget = {}
     for e in led['sites']:
-        k = (e.get('file'), e['key'][1], e['key'][2])
+        k = (e.get('file'),) + site_class(e['key'][1], e['key'][2])
         budget[k] = budget.get(k, 0) + e['count']
     used = {}
     for key, locs in sites.items():
-        k = (locs[0].split(':')[0], key[1], key[2])
+        k = (locs[0].split(':')[0],) + site_class(key[1], key[2])
         used[k] = used.get(k, 0) + len(locs)
     n = 0
     for key, locs in sorted(sites.items()):
         n += len(locs)
         e = allowed.get(key)
         inst = '%s:%s:%s' % key
-        fk = (locs[0].split(':')[0], key[1], key[2])
+        fk = (locs[0].split(':')[0],) + site_class(key[1], key[2])
         within_file_budget = used.get(fk, 0) <= budget.get(fk, 0)
         if e is None and not within_file_budget:
             rep.ob('P-inventory', inst, False,
